@@ -25,7 +25,7 @@ LEVEL_NOTE = "Trusted: vlib/twins.py inliner (model-free relation), vlib/model/r
 DESIGN_REF = "DESIGN.md §3 C09"
 ASSUMPTIONS = ["twin binding uses := when the argument only mentions expansion-time names, = otherwise"]
 
-PROFILE = progen.Profile(param_named_consts=True, incbin=False, ascii=False, orgs=True, reloc_ram=False, scopes=True, max_stmts=12, call_weight=8, min_calls=2)
+PROFILE = progen.Profile(param_named_consts=True, text=True, incbin=False, ascii=False, orgs=True, reloc_ram=False, scopes=True, max_stmts=12, call_weight=8, min_calls=2)
 
 
 def selftest() -> None:
